@@ -51,8 +51,14 @@ import (
 //           backup makes (a deterministic overlap at every point of the output
 //           stream); the backup must equal prefix k or k+1
 //   injectsnap  like inject, and the transaction is followed - still inside the Write -
-//           by a Store.Snapshot (a WAL checkpoint into the main database file), which is
-//           what raft triggers on its own at arbitrary moments; binary and delete formats
+//           by THREE Store.Snapshot requests (a WAL checkpoint into the main database
+//           file), which is what raft triggers on its own at arbitrary moments; a refused
+//           request must not make a later one admissible. binary and delete formats
+//   injectsnap2 the same with the order snapshot, transaction, snapshot
+//   dstfail at position 11 the backup is repeated against a destination that refuses
+//           data at byte N, for a stride of N over the whole output plus each of its last
+//           300 bytes (and against /dev/full as a real *os.File): a nil return means the
+//           bytes the destination accepted restore to the complete database
 //   race    at every position k the backup and the next transaction are released
 //           together from a barrier in two goroutines (uncontrolled interleaving,
 //           schedule-independent oracle)
@@ -400,7 +406,7 @@ func c21Combos() []c21Combo {
 
 type c21Case struct {
 	Combo c21Combo `json:"combo"`
-	Mode  string   `json:"mode"`  // seq | inject | injectsnap | race
+	Mode  string   `json:"mode"`  // seq | inject | injectsnap | injectsnap2 | race | dstfail
 	Snaps string   `json:"snaps"` // seq: "none" | "4,9" | "all"
 	M     int      `json:"m"`     // inject: index of the Write call that runs the next transaction
 }
@@ -412,7 +418,11 @@ func (c c21Case) String() string {
 	case "inject":
 		return fmt.Sprintf("%s inject@write#%d", c.Combo, c.M)
 	case "injectsnap":
-		return fmt.Sprintf("%s inject+snapshot@write#%d", c.Combo, c.M)
+		return fmt.Sprintf("%s inject+3snapshots@write#%d", c.Combo, c.M)
+	case "injectsnap2":
+		return fmt.Sprintf("%s snapshot+inject+snapshot@write#%d", c.Combo, c.M)
+	case "dstfail":
+		return fmt.Sprintf("%s destination refuses at byte N", c.Combo)
 	}
 	return fmt.Sprintf("%s %s", c.Combo, c.Mode)
 }
@@ -502,6 +512,13 @@ func (j *c21Judge) restoreUncached(c c21Combo, data []byte) *c21Verdict {
 			conn.ExecContext(context.Background(), "ROLLBACK")
 			return v
 		}
+		// the dump must have ended its own transaction: a reader of a dump without its COMMIT rolls everything back
+		if _, err := conn.ExecContext(context.Background(), "BEGIN IMMEDIATE"); err != nil {
+			v.bad = "SQL dump leaves its transaction open (no COMMIT): " + err.Error()
+			conn.ExecContext(context.Background(), "ROLLBACK")
+			return v
+		}
+		conn.ExecContext(context.Background(), "ROLLBACK")
 		conn.Close()
 	} else {
 		if len(data) < 100 || string(data[:16]) != "SQLite format 3\x00" {
@@ -744,6 +761,131 @@ func (x *c21Runner) backup(k int, tag string, at int, hook func()) (fired bool) 
 	return fired
 }
 
+// position of the workload at which the destination-failure sweep runs: the largest
+// database of the workload (the big table still exists), a dump of several buffers' length
+const c21DstFailPos = 11
+
+// c21RefusingWriter accepts limit bytes in total and refuses everything after them.
+type c21RefusingWriter struct {
+	buf     bytes.Buffer
+	limit   int
+	refused bool
+}
+
+var errC21Refused = fmt.Errorf("c21: destination refuses further data")
+
+func (w *c21RefusingWriter) Write(p []byte) (int, error) {
+	rem := w.limit - w.buf.Len()
+	if len(p) <= rem {
+		return w.buf.Write(p)
+	}
+	w.refused = true
+	if rem > 0 {
+		w.buf.Write(p[:rem])
+		return rem, errC21Refused
+	}
+	return 0, errC21Refused
+}
+
+// complete reports whether data (as written by a backup of shape c) is a complete backup equal to prefix k.
+func (x *c21Runner) complete(c c21Combo, data []byte, k int) (bool, string) {
+	if c.Compress {
+		zr, err := gzip.NewReader(bytes.NewReader(data))
+		var plain []byte
+		if err == nil {
+			plain, err = io.ReadAll(zr)
+		}
+		if err != nil {
+			return false, fmt.Sprintf("they are not a complete gzip stream (%v)", err)
+		}
+		data = plain
+	}
+	v := x.j.restore(c, data)
+	switch {
+	case v.bad != "":
+		return false, v.bad
+	case len(v.match) == 0:
+		return false, "they restore to no committed state: " + v.diff
+	}
+	for _, p := range v.match {
+		if p == k {
+			return true, ""
+		}
+	}
+	return false, fmt.Sprintf("they restore to prefix %v, not %d", v.match, k)
+}
+
+func (x *c21Runner) dstFail(k int) {
+	c := x.cs.Combo
+	var ref bytes.Buffer
+	if err := x.s.Backup(context.Background(), c.request(), &ref); err != nil {
+		x.nErr++
+		x.out = append(x.out, "reference:error") // allowed; nothing to sweep
+		return
+	}
+	x.nBackup++
+	x.r.Eval(1)
+	if ok, why := x.complete(c, ref.Bytes(), k); !ok {
+		x.r.Violation("C21:"+c.class()+":not-a-usable-database", fmt.Sprintf("%s, position %d: Backup returned nil but of its %d output bytes: %s", x.cs, k, ref.Len(), why), x.cs)
+		x.out = append(x.out, "reference:bad")
+		return
+	}
+	L := ref.Len()
+	set := map[int]bool{}
+	stride := L / 64
+	if stride < 1 {
+		stride = 1
+	}
+	for n := 0; n < L; n += stride {
+		set[n] = true
+	}
+	for n := L - 300; n < L; n++ {
+		if n >= 0 {
+			set[n] = true
+		}
+	}
+	ns := make([]int, 0, len(set))
+	for n := range set {
+		ns = append(ns, n)
+	}
+	sort.Ints(ns)
+	var nErr, nilComplete, nilIncomplete int
+	for _, n := range ns {
+		w := &c21RefusingWriter{limit: n}
+		err := x.s.Backup(context.Background(), c.request(), w)
+		x.nBackup++
+		x.r.Eval(1)
+		if err != nil {
+			nErr++
+			continue
+		}
+		if ok, why := x.complete(c, w.buf.Bytes(), k); ok {
+			nilComplete++ // e.g. only a final newline was refused
+		} else {
+			nilIncomplete++
+			x.r.Violation("C21:"+c.class()+":destination-failure-reported-success",
+				fmt.Sprintf("%s, position %d: the destination accepted %d bytes and refused the rest (the complete output has %d), Backup returned nil, but of the accepted bytes: %s", x.cs, k, w.buf.Len(), L, why), x.cs)
+		}
+	}
+	x.nErr += nErr
+	x.nOK += nilComplete + nilIncomplete
+	x.out = append(x.out, fmt.Sprintf("output=%dB cuts=%d error=%d nil-but-complete=%d nil-INCOMPLETE=%d", L, len(ns), nErr, nilComplete, nilIncomplete))
+	// a real *os.File that refuses everything
+	if f, err := os.OpenFile("/dev/full", os.O_WRONLY, 0); err == nil {
+		berr := x.s.Backup(context.Background(), c.request(), f)
+		f.Close()
+		x.nBackup++
+		x.r.Eval(1)
+		if berr == nil {
+			x.r.Violation("C21:"+c.class()+":destination-failure-reported-success",
+				fmt.Sprintf("%s, position %d: the destination is /dev/full (every write fails with ENOSPC), Backup returned nil", x.cs, k), x.cs)
+			x.out = append(x.out, "devfull:nil")
+		} else {
+			x.out = append(x.out, "devfull:error")
+		}
+	}
+}
+
 func (x *c21Runner) run() {
 	s, ln := mustNewStoreAtPathsLn(random.String(), c21Scratch(x.t), false)
 	defer ln.Close()
@@ -760,6 +902,13 @@ func (x *c21Runner) run() {
 	x.s = s
 	x.dir = c21Scratch(x.t)
 	x.exec(c21Setup(), "setup")
+	if x.cs.Mode == "dstfail" {
+		for i := 1; i <= c21DstFailPos; i++ {
+			x.txn(i)
+		}
+		x.dstFail(c21DstFailPos)
+		return
+	}
 
 	snapAt := map[int]bool{}
 	switch x.cs.Snaps {
@@ -783,16 +932,27 @@ func (x *c21Runner) run() {
 			if k < c21N {
 				x.txn(k + 1)
 			}
-		case x.cs.Mode == "inject" || x.cs.Mode == "injectsnap":
+		case x.cs.Mode == "inject" || x.cs.Mode == "injectsnap" || x.cs.Mode == "injectsnap2":
 			done := make(chan struct{})
 			hook := func() {
 				// the transaction runs while the backup is inside Write; should a backup ever
 				// block writers, the write is left to finish in the background
 				go func() {
 					defer close(done)
-					x.txn(k + 1)
-					if x.cs.Mode == "injectsnap" {
-						s.Snapshot(0) // refused while a backup holds the snapshot gate: any outcome is fine
+					// snapshot requests are refused while a backup holds the snapshot gate: any
+					// outcome of theirs is fine, the backup is what is judged
+					switch x.cs.Mode {
+					case "inject":
+						x.txn(k + 1)
+					case "injectsnap":
+						x.txn(k + 1)
+						s.Snapshot(0)
+						s.Snapshot(0)
+						s.Snapshot(0)
+					case "injectsnap2":
+						s.Snapshot(0)
+						x.txn(k + 1)
+						s.Snapshot(0)
 					}
 				}()
 				select {
@@ -822,7 +982,7 @@ func TestVerif_C21(t *testing.T) {
 	defer r.Finish()
 	m := c21BuildModel(t)
 	j := &c21Judge{t: t, r: r, m: m, dir: c21Scratch(t), cache: map[[32]byte]*c21Verdict{}}
-	r.Rule("full product format{binary,sql,delete} x vacuum x compress x leader-flag x destination{io.Writer,*os.File} x (sql: tables filter {none, two tables, one table, unknown table}) = 72 request shapes, each on a fresh real single-node Store running a fixed workload of 12 invariant-preserving multi-statement transactions; seq: backup at every position 0..12 (and again after an explicit Snapshot at the scheduled positions); inject: for every Write call index m the backup makes on its destination, the next transaction is executed from inside that Write, at every position (binary/delete formats: also followed there by a Store.Snapshot); race: backup and next transaction released together, at every position. Every backup that returns nil is decompressed, opened with SQLite (integrity_check) or executed into an empty database, and its logical content (schema + all rows) must equal the reference content after a prefix j of the transactions with acknowledged-before-call <= j <= started-before-return. distinct = (request shape, mode, per-position outcome)")
+	r.Rule("full product format{binary,sql,delete} x vacuum x compress x leader-flag x destination{io.Writer,*os.File} x (sql: tables filter {none, two tables, one table, unknown table}) = 72 request shapes, each on a fresh real single-node Store running a fixed workload of 12 invariant-preserving multi-statement transactions; seq: backup at every position 0..12 (and again after an explicit Snapshot at the scheduled positions); inject: for every Write call index m the backup makes on its destination, the next transaction is executed from inside that Write, at every position (binary/delete formats: also with three Store.Snapshot requests after it, and as snapshot-transaction-snapshot); dstfail: at position 11 the backup repeated against a destination refusing data at byte N (stride of 1/64 of the output plus each of its last 300 bytes; /dev/full as *os.File), a nil return must have delivered a complete backup; race: backup and next transaction released together, at every position. Every backup that returns nil is decompressed, opened with SQLite (integrity_check) or executed into an empty database, and its logical content (schema + all rows) must equal the reference content after a prefix j of the transactions with acknowledged-before-call <= j <= started-before-return. distinct = (request shape, mode, per-position outcome)")
 	r.Assume("single node (leader); the Leader flag is therefore always satisfiable")
 	r.Note("an error return is always accepted; filtered SQL dumps are executed into a database in which the unselected tables exist empty (whether a filtered dump should carry other tables' indexes/triggers is not judged); in mode race, and inside SQLite/raft in all modes, the interleaving is whatever the run produced - the oracle does not depend on it")
 
@@ -878,6 +1038,9 @@ func TestVerif_C21(t *testing.T) {
 		wg.Wait()
 		for i, cs := range cases {
 			r.Distinct(cs.String() + " => " + outs[i])
+			if cs.Mode == "dstfail" {
+				t.Logf("%s: %s", cs, outs[i])
+			}
 			if i%29 == 0 {
 				r.Sample(map[string]any{"case": cs.String(), "outcomes": outs[i]})
 			}
@@ -921,10 +1084,24 @@ func TestVerif_C21(t *testing.T) {
 			continue
 		}
 		for mm := 0; mm < maxW[c]; mm++ {
-			inj = append(inj, c21Case{Combo: c, Mode: "injectsnap", M: mm})
+			inj = append(inj, c21Case{Combo: c, Mode: "injectsnap", M: mm}, c21Case{Combo: c, Mode: "injectsnap2", M: mm})
 		}
 	}
 	runAll(inj, workers)
+
+	// dstfail
+	var dstf []c21Case
+	for _, c := range combos {
+		if c.invalid() || c.Dst != "buffer" || c.Leader || c.Tables == "nosuch" {
+			continue
+		}
+		if !r.Thorough() && (c.Vacuum || c.Format == "delete" || c.Tables != "") {
+			continue
+		}
+		dstf = append(dstf, c21Case{Combo: c, Mode: "dstfail"})
+	}
+	runAll(dstf, workers)
+	r.Set("store_runs_dstfail", len(dstf))
 
 	// race
 	var race []c21Case
@@ -939,7 +1116,7 @@ func TestVerif_C21(t *testing.T) {
 	}
 	runAll(race, workers)
 
-	r.State(len(seq) + len(inj) + len(race))
+	r.State(len(seq) + len(inj) + len(race) + len(dstf))
 	r.Set("store_runs_seq", len(seq))
 	r.Set("store_runs_inject", len(inj))
 	r.Set("store_runs_race", len(race))
